@@ -286,3 +286,10 @@ Definition gf_value_src (tl : tols K) (s : gf_st K) (z1 z2 z3 : K) : outcome K :
          | None => Throws 3
          end).
 End Src.
+
+(** * TwoParticleGF::compute(clear, freqs, comm) on one rank: PV.Chi.gf_compute_gen with the two structural switches read from
+    the description of the function (PVgen.Gen_LehTPGFCompute): is the table sized in front of the Vanishing test, is the
+    reduction skipped for an empty table *)
+Definition gf_compute_src (K : Type) (NO : numops K) (g : nat) (tl : tols K) (clear : bool) (freqs : list (K * K * K)) (s : gf_st K)
+  : outcome (list K * gf_st K) :=
+  gf_compute_gen K NO (tc_size_before_vanishing gen_tpgf_compute) (tc_reduce_guarded gen_tpgf_compute) g tl clear freqs s.
